@@ -67,6 +67,12 @@ for d in sorted(glob.glob(SRC + '/C??/[0-9]')) + sorted(glob.glob('/tmp/mut2/C??
         'checks_run_against_it': {'how': 'bin/mutmatrix.sh: git -C /repo apply patch.diff; bin/check <P> quick for every claimed property; git -C /repo checkout -- .', 'results': det},
         'caught_by': sorted(p for p, v in det.items() if v['exit'] == '1'),
     })
+    try:
+        prev = json.load(open(os.path.join(out, 'meta.json')))
+        if 'note' in prev:
+            meta['note'] = prev['note']         # hand-written remarks survive regeneration
+    except Exception:
+        pass
     json.dump(meta, open(os.path.join(out, 'meta.json'), 'w'), indent=1)
     rows.append((mid, meta.get('needs', ''), det))
 props = ['C02', 'C04', 'C06', 'C08', 'C14', 'C15', 'C16', 'C17', 'C19', 'C20']
